@@ -25,9 +25,18 @@ type fpWalker struct {
 	seen map[uintptr]int
 }
 
+// Skipper marks harness doubles (recording registries, listeners) whose contents are write-only from
+// the code's point of view and must not be part of a state fingerprint.
+type Skipper interface{ FingerprintSkip() }
+
+var skipperType = reflect.TypeOf((*Skipper)(nil)).Elem()
+
 func skipType(t reflect.Type) bool {
 	p := t.PkgPath()
-	return strings.HasPrefix(p, "verif/vrt")
+	if strings.HasPrefix(p, "verif/vrt") {
+		return true
+	}
+	return t.Implements(skipperType) || (t.Kind() != reflect.Ptr && reflect.PtrTo(t).Implements(skipperType))
 }
 
 func (w *fpWalker) walk(v reflect.Value, depth int) {
@@ -89,6 +98,9 @@ func (w *fpWalker) walk(v reflect.Value, depth int) {
 				continue
 			}
 			if f.Type.Kind() == reflect.Ptr && skipType(f.Type.Elem()) {
+				continue
+			}
+			if f.Tag.Get("fp") == "-" {
 				continue
 			}
 			w.b.WriteString(f.Name)
